@@ -8,20 +8,21 @@ plus the documented meaning (`sat`, `findAllSpec`).  Core Lean only.
 External functions never run inside Lean: a compiled regular expression and a user function are *oracle
 predicates* (`Oracle`), supplied as truth tables per case by the harness.
 
-Five repairs of /repo are mirrored in their repaired form (`Variant.repaired`); each can be switched off through its
-`Variant` flag, which is how the witness theorems state the unrepaired behaviour:
+`Variant.repaired` mirrors /repo HEAD: bs4 4.13.0 plus the three C10 repairs that are committed there —
 * (a) `noCritBranch`: a search with no criteria at all returns every tag *also* with a limit / via the singular
   methods (`fixes/C10-no-criteria-limit.diff`, element.py `_find_all`);
 * (b) `retryFn = false`: a function given as the name criterion is not called a second time with the prefixed name
   string (`fixes/C10-name-function-once.diff`, filter.py `matches_tag`);
+* (f) `_attribute_match` retries the joined value when `len(attr_values) != 1`, so a multi-valued attribute without
+  values (`class=""` → `[]`) is matched as the empty string (`fixes/C10-empty-multivalued-attr.diff`; the code
+  before that repair is `attributeMatchOld`).
+`Variant.unrepaired` switches (a) and (b) off (4.13.0 as shipped). `Variant.proposed` additionally switches on two
+patches that are **proposed, not applied** (`fixes/proposed/`), whose absence is recorded as known findings:
 * (d) `deadCheck`: a criterion that yields no match rule (an empty list, a list of nested lists) matches nothing
-  also when it is combined with other criteria — `SoupStrainer.matches_nothing`
-  (`fixes/C10-empty-list-combined.diff`, filter.py `__init__`/`matches_tag`/`match`);
+  also when combined with other criteria — `SoupStrainer.matches_nothing` (`C10-empty-list-combined`);
 * (e) `attrsDict`: the shortcuts of `_find_all` are taken only when `attrs` is an empty *dict*; a falsy non-dict
-  value ("" / None / False / []) is a restriction on `class` on every path (`fixes/C10-falsy-attrs-ignored.diff`);
-* (f) `joinEmpty`: a multi-valued attribute without values (`class=""` → `[]`) is matched as the empty string, so
-  `class_=True` finds it (`fixes/C10-empty-multivalued-attr.diff`, filter.py `_attribute_match`).
-One known finding is mirrored as the code behaves: `limit=0` (pinned by the repo test `test_find_all_limit`). -/
+  value ("" / None / False / []) is a restriction on `class` on every path (`C10-falsy-attrs-ignored`).
+A third known finding is mirrored as the code behaves: `limit=0` (pinned by the repo test `test_find_all_limit`). -/
 namespace BS.Search
 
 /-! ## Trees -/
@@ -232,14 +233,16 @@ def prefixedName (e : Elem) : Option PStr :=
 structure Variant where
   retryFn : Bool        -- unrepaired (b): a name *function* is retried with the prefixed name string
   noCritBranch : Bool   -- repaired (a): `_find_all` has a branch for "no criteria at all" honouring `limit`
-  deadCheck : Bool      -- repaired (d): `SoupStrainer.matches_nothing` is consulted
-  attrsDict : Bool      -- repaired (e): the shortcuts test `isinstance(attrs, dict) and not attrs`, not `not attrs`
-  joinEmpty : Bool      -- repaired (f): the joined-value retry happens for `len(attr_values) != 1`, not `> 1`
+  deadCheck : Bool      -- proposed (d): `SoupStrainer.matches_nothing` is consulted
+  attrsDict : Bool      -- proposed (e): the shortcuts test `isinstance(attrs, dict) and not attrs`, not `not attrs`
   deriving Repr, DecidableEq
 
-def Variant.repaired : Variant := ⟨false, true, true, true, true⟩
-/-- bs4 4.13.0 as shipped -/
-def Variant.unrepaired : Variant := ⟨true, false, false, false, false⟩
+/-- /repo HEAD -/
+def Variant.repaired : Variant := ⟨false, true, false, false⟩
+/-- bs4 4.13.0 as shipped (apart from `_attribute_match`, see `attributeMatchOld`) -/
+def Variant.unrepaired : Variant := ⟨true, false, false, false⟩
+/-- /repo HEAD plus the two proposed patches `fixes/proposed/C10-*.diff` -/
+def Variant.proposed : Variant := ⟨false, true, true, true⟩
 
 /-- One turn of the name-rule loop (filter.py:518-520): `rule.matches_tag(tag) or (prefixed_name is not None and
     [rule.function is None and] rule.matches_string(prefixed_name))`, with the calls it makes. -/
@@ -287,12 +290,18 @@ def joinedValue : Option AttrVal → PStr
 def helperMatch (O : Oracle) (rules : List Rule) (vals : List (Option PStr)) : Bool :=
   rules.any (fun r => vals.any (fun x => r.matchesString O x))
 
-/-- `SoupStrainer._attribute_match` (filter.py:545-578), incl. the retry on the space-joined value:
-    `je` (repair f) = the retry condition is `len(attr_values) != 1` instead of `> 1`. -/
-def attributeMatch (O : Oracle) (je : Bool) (v : Option AttrVal) (rules : List Rule) : Bool :=
+/-- `SoupStrainer._attribute_match` (filter.py `_attribute_match`), incl. the retry on the space-joined value when
+    `len(attr_values) != 1` (repair f: a multi-valued attribute without values is the empty string). -/
+def attributeMatch (O : Oracle) (v : Option AttrVal) (rules : List Rule) : Bool :=
   let vals := attrValues v
   helperMatch O rules vals ||
-    ((if je then decide (vals.length ≠ 1) else decide (vals.length > 1)) && helperMatch O rules [some (joinedValue v)])
+    (decide (vals.length ≠ 1) && helperMatch O rules [some (joinedValue v)])
+
+/-- `_attribute_match` before repair (f): the retry only for `len(attr_values) > 1` (4.13.0 as shipped) -/
+def attributeMatchOld (O : Oracle) (v : Option AttrVal) (rules : List Rule) : Bool :=
+  let vals := attrValues v
+  helperMatch O rules vals ||
+    (decide (vals.length > 1) && helperMatch O rules [some (joinedValue v)])
 
 def ofS' (s : String) : PStr := s.toList.map Char.toNat
 
@@ -316,7 +325,8 @@ structure Strainer where
   nameRules : List Rule
   attrFlat : List (PStr × Rule)
   stringRules : List Rule
-  /-- `matches_nothing` (repair d): some criterion was given that yields no rule at all -/
+  /-- `matches_nothing` (proposed patch d; not consulted by /repo HEAD): some criterion was given that yields no
+      rule at all -/
   dead : Bool
   deriving Repr
 
@@ -350,20 +360,20 @@ def stringRulesOK (O : Oracle) (s : Strainer) (e : Elem) : Bool :=
 
 /-- `SoupStrainer.matches_tag` (filter.py:475-543) with the calls its name rules make. -/
 def matchesTag (O : Oracle) (v : Variant) (s : Strainer) (e : Elem) : Bool × List Call :=
-  if v.deadCheck && s.dead then (false, [])                            -- repair d: `if self.matches_nothing`
-  else if s.nameRules.isEmpty && s.attrFlat.isEmpty then (false, [])   -- :491
+  if s.nameRules.isEmpty && s.attrFlat.isEmpty then (false, [])        -- :491
   else if shortcutReject s e then (false, [])                          -- :497
   else
     let nm := if s.nameRules.isEmpty then (true, []) else nameRulesEval O v e s.nameRules
     if !nm.1 then (false, nm.2)                                        -- :524
     else
-      (s.attrFlat.all (fun p => attributeMatch O v.joinEmpty (getAttr e p.1) (s.rulesFor p.1))   -- :530-534
+      (s.attrFlat.all (fun p => attributeMatch O (getAttr e p.1) (s.rulesFor p.1))   -- :530-534
         && stringRulesOK O s e, nm.2)                                               -- :537-542
 
 /-- `SoupStrainer.match` (filter.py:650-668). -/
 def matchElem (O : Oracle) (v : Variant) (s : Strainer) (e : Elem) : Bool × List Call :=
-  if e.isTag then matchesTag O v s e
-  else if v.deadCheck && s.dead then (false, [])
+  if v.deadCheck && s.dead then (false, [])     -- proposed d: `if self.matches_nothing: return False` (for tags the
+                                                -- patch has the same test at the top of `matches_tag`, reached from here)
+  else if e.isTag then matchesTag O v s e
   else if s.nameRules.isEmpty && s.attrFlat.isEmpty then
     (s.stringRules.any (fun r => r.matchesString O e.str), [])
   else (false, [])
@@ -433,7 +443,7 @@ def generalPath (O : Oracle) (v : Variant) (q : Query) (limit : Option Nat) (ax 
 
 /-- `PageElement._find_all` (element.py:1079-1143; with repair (a) when `v.noCritBranch`). -/
 def findAllImpl (O : Oracle) (v : Variant) (q : Query) (limit : Option Nat) (ax : List Elem) : List Elem × List Call :=
-  let noAttrs := if v.attrsDict then q.attrs.isEmptyDict else !q.attrs.truthy     -- repair e
+  let noAttrs := if v.attrsDict then q.attrs.isEmptyDict else !q.attrs.truthy     -- `not attrs` / proposed e
   let basic := q.string.isNone && noAttrs && q.kwargs.isEmpty
   if v.noCritBranch && basic && q.name.isNone then
     -- repaired: no criteria at all = every tag, up to the limit (`if limit and len(result) >= limit: break`)
